@@ -24,6 +24,7 @@ func runC16(c *Check) {
 	c.fetchSharesNothing("C16-R3")
 	c.noGlobalLockAcrossFetch()
 	c.fetchFilesExclusive()
+	c.combinedSourcesFresh()
 }
 
 // combineNonNil (R7): a profile handed to combineProfiles is known to be non-nil at the
